@@ -197,6 +197,7 @@ def run(ctx):
         lines.append(rc.report_line(peer, False, imp['banner']))
         expect.append(('report', imp, ('repeated-unknown', how)))
     whole_audit_neighbours(ctx, fail, cov)
+    finding_isolation(ctx, fail, cov)
     model = ctx.driver(lines) if ctx.driver_ok else []
     for line, m, (kind, want, what) in zip(lines, model, expect):
         if kind == 'lookup':
@@ -229,7 +230,15 @@ def _hk_pool(r):
             'ecdsa-sha2-nistp384': fn.ecdsa_blob('nistp384', 97), 'ssh-dss': fn.dss_blob(1024),
             'ssh-rsa-cert-v01@openssh.com': fn.cert_blob('ssh-rsa-cert-v01@openssh.com', fn.mpint(65537) + fn.mpint(n), cas[ca1]),
             'ssh-ed25519-cert-v01@openssh.com': fn.cert_blob('ssh-ed25519-cert-v01@openssh.com', fn.sstr(b'\x42' * 32), cas[ca2])}
-    return pool, {'rsa_bits': bits, 'ca_bits': cab, 'ca_of_rsa_cert': ca1, 'ca_of_ed25519_cert': ca2}
+    # the rest of the probe table (round 15, seed C03-10: entries of one family sharing their note lists): the ECDSA family with its
+    # certificates, the RSA certificate algorithms (their blobs carry the type ssh-rsa-cert-v01@openssh.com), a DSA certificate
+    ca3 = r.choice(sorted(cas))
+    for curve, qlen in (('nistp256', 65), ('nistp384', 97), ('nistp521', 133)):
+        pool.setdefault('ecdsa-sha2-' + curve, fn.ecdsa_blob(curve, qlen))
+        pool['ecdsa-sha2-%s-cert-v01@openssh.com' % curve] = fn.cert_blob('ecdsa-sha2-%s-cert-v01@openssh.com' % curve, fn.sstr(curve) + fn.sstr(b'\x04' + b'\x09' * (qlen - 1)), cas[ca3])
+    for a in ('rsa-sha2-256-cert-v01@openssh.com', 'rsa-sha2-512-cert-v01@openssh.com'):
+        pool[a] = pool['ssh-rsa-cert-v01@openssh.com']
+    return pool, {'rsa_bits': bits, 'ca_bits': cab, 'ca_of_rsa_cert': ca1, 'ca_of_ed25519_cert': ca2, 'ca_of_ecdsa_certs': ca3}
 
 
 def _audit_entries(keys, kexs, blobs, gex_bits):
@@ -271,6 +280,10 @@ def whole_audit_neighbours(ctx, fail, cov):
         names = sorted(pool)
         if k == 0:      # an RSA certificate signed by an ECDSA CA, probed before the plain keys (seed C03-7)
             keys = ['ssh-ed25519', 'ssh-rsa-cert-v01@openssh.com', 'ecdsa-sha2-nistp256']
+        elif k == 1:    # an ECDSA host certificate beside the plain keys of its family (seed C03-10)
+            keys = ['ecdsa-sha2-nistp256-cert-v01@openssh.com', 'ecdsa-sha2-nistp256', 'ecdsa-sha2-nistp384', 'ssh-ed25519']
+        elif k == 2:
+            keys = ['rsa-sha2-512-cert-v01@openssh.com', 'ssh-rsa-cert-v01@openssh.com', 'rsa-sha2-512', 'ssh-rsa', 'ecdsa-sha2-nistp521-cert-v01@openssh.com', 'ecdsa-sha2-nistp521']
         else:
             keys = r.sample(names, r.randint(2, 5))
         gex_bits = r.choice([None, 1024, 2048, 3072, 4096])
@@ -292,6 +305,35 @@ def whole_audit_neighbours(ctx, fail, cov):
                 if got != ref:
                     fail('entry_changes_with_neighbours', {'whole_audit': True, 'cat': c, 'name': n_, 'keys': keys, 'kexs': kexs, 'meta': meta, 'gex_bits': gex_bits},
                          {'json': got[0], 'text': got[1][:4]}, {'json': ref[0], 'text': ref[1][:4]})
+
+
+def finding_isolation(ctx, fail, cov):
+    """A finding recorded on one entry (the way the probes record theirs: pad the entry to fail / warn / info lists, then extend them in place)
+    never changes the entry of another algorithm: every entry of the calling thread's database is edited in turn and the rest of the
+    database is compared with what it was.  (Seed C03-10: entries of one family built from shared list objects.)"""
+    import copy
+    import fakenet
+    from ssh_audit.ssh2_kexdb import SSH2_KexDB
+    fakenet.reset_dbs()
+    marker = 'using small 1024-bit modulus (isolation probe)'
+    flagged = set()
+    for cat in ('kex', 'key', 'enc', 'mac'):
+        for name in sorted(SSH2_KexDB.get_db()[cat]):
+            fakenet.reset_dbs()
+            db = SSH2_KexDB.get_db()
+            before = copy.deepcopy(db)
+            e = db[cat][name]
+            while len(e) < 4:
+                e.append([])
+            for slot in (1, 2, 3):
+                e[slot].extend([marker])
+            changed = sorted((c2, n2) for c2 in db for n2 in db[c2] if (c2, n2) != (cat, name) and db[c2][n2] != before[c2][n2])
+            cov.add(('finding-isolation', cat, name), True, tags=['finding-isolation'])
+            if changed and (cat, name) not in flagged:
+                flagged.update(changed)
+                fail('finding_on_one_entry_changes_another', {'isolation': True, 'cat': cat, 'name': name},
+                     {'entries_that_changed': ['%s %s' % x for x in changed][:8]}, 'no other entry changes')
+    fakenet.reset_dbs()
 
 
 def quiet_peer(c, lst):
@@ -335,6 +377,23 @@ def replay(obj):
         bad = any(x != [['warn', 'unknown algorithm']] for x in notes) or any(j.get('fail') != ['using unknown algorithm'] for j in jn) or not notes or len(notes) != len(jn)
         print('PROPERTY FAILS' if bad else 'every occurrence is flagged in both views')
         return 1 if bad else 0
+    if inp.get('isolation'):
+        import copy
+        import fakenet
+        from ssh_audit.ssh2_kexdb import SSH2_KexDB
+        fakenet.reset_dbs()
+        db = SSH2_KexDB.get_db()
+        before = copy.deepcopy(db)
+        e = db[inp['cat']][inp['name']]
+        while len(e) < 4:
+            e.append([])
+        for slot in (1, 2, 3):
+            e[slot].extend(['isolation probe'])
+        changed = sorted((c2, n2) for c2 in db for n2 in db[c2] if (c2, n2) != (inp['cat'], inp['name']) and db[c2][n2] != before[c2][n2])
+        fakenet.reset_dbs()
+        print('entries that changed with %s %s:' % (inp['cat'], inp['name']), changed[:10])
+        print('PROPERTY FAILS' if changed else 'no other entry changes')
+        return 1 if changed else 0
     if 'list' in inp:
         db = pg.master()
         c, name = inp['cat'], inp['name']
